@@ -248,21 +248,32 @@ Proof.
     repeat (destruct H as [H|H]; [injection H as <- <-; vm_compute; reflexivity|]). destruct H.
 Qed.
 
-(* static_equiv / static_serves_file on the same world: the premises are satisfiable, and the file
-   served for "/about" is about.html (C07's "+ .html" alternative), revalidated by its own ETag *)
+(* static_equiv / static_serves_file on the same world: every premise of the two theorems holds for this
+   leaf, request and state, and the file served for "/about" is about.html (C07's "+ .html"
+   alternative), revalidated by its own ETag *)
 Example static_leaf_example :
-  let rq := ex_request (lit "GET") (lit "/about") [(lit "If-None-Match", lit """e1700000000500000000s13""")] in
+  let rq := ex_request (lit "GET") (lit "/about") [(lit "If-None-Match", lit """e1700000000500000000s13"""); (lit "Host", lit "h")] in
   let s := init rq in
   C07.Model.wf_dir (sc_dir ex_cfg) = true /\
-  se_fs ex_env (sc_dir ex_cfg ++ SL :: C07.Model.INDEX_HTML) <> C07.Model.NDir /\
+  Forall (fun h => ~ In 95%N (fst h)) (rq_headers (aq_request rq)) /\
+  NoDup (map (fun h => lower (fst h)) (rq_headers (aq_request rq))) /\
   C18.Model.default_port (aq_scheme rq) <> None /\
+  C09.Model.lifespan (s_req s) = false /\ C09.Model.path (s_req s) = Some (lit "/about") /\
+  Forall (fun ch => (ch < 128)%N)
+         (C09.Model.get (C09.Model.root (s_req s)) ++ C09.Model.get (C09.Model.path (s_req s))) /\
+  se_fs ex_env (sc_dir ex_cfg ++ SL :: C07.Model.INDEX_HTML) <> C07.Model.NDir /\
   fst (C07.Model.app_call C07.Model.KPages (se_fs ex_env) (se_cwd ex_env) (sc_dir ex_cfg) (lit "/about")) =
     C07.Model.Served (lit "/srv/www/about.html") 3 /\
+  cond_of C14.Model.Wsgi rq = (lit """e1700000000500000000s13""", []) /\
+  cond_of C14.Model.Asgi rq = (lit """e1700000000500000000s13""", []) /\
   c14_not_modified ex_env 3 (lit """e1700000000500000000s13""") [] = true /\
   static_wsgi C07.Model.KPages ex_cfg ex_env rq s = OResp 304 (headers_304 ex_cfg) [] /\
   static_asgi C07.Model.KPages ex_cfg ex_env rq s = OResp 304 (headers_304 ex_cfg) [].
 Proof.
-  cbv zeta. repeat split; try (vm_compute; reflexivity); vm_compute; discriminate.
+  cbv zeta. repeat split; try (vm_compute; reflexivity); try (vm_compute; discriminate).
+  - repeat constructor; cbn; intuition discriminate.
+  - vm_compute. repeat constructor; cbn; intuition discriminate.
+  - vm_compute. repeat constructor.
 Qed.
 
 Print Assumptions headers_view_equiv.
